@@ -15,6 +15,8 @@ def run(tier):
     # (a) the template bytes are cross-checked: three full inputs per site, expected results from the specification
     cases = []
     for s in sites:
+        if s["fn"] == "split_parse_record":
+            continue      # (a defragmented result lives in the parser's buffer: its slices are not ranges of the input; bound in C07 - here the sweep reads the values)
         for k, smp in enumerate(s["samples"]):
             cases.append({"id": "%s/%d" % (s["site"], k), "fn": s["fn"], "a": s["a"], "input": smp["input"], "expect": smp["expect"],
                           "pin": "full", "note": {"site": s["site"], "x": smp["x"]}})
